@@ -179,14 +179,18 @@ CHECKS = {
              "integer one with identical integer observables, and the element loops and relational operators behave the same on "
              "pointer-indexed storage; C11_deref_in_bounds, C11_loops_touch_only_derefs, C11_compare_reads_only_leaves, "
              "C11_loops_in_bounds: every dereference by indexing, iterators in [begin,end), elements(), the loops and comparison "
-             "lies inside [0,N) of the root (end iterators may hold out-of-range addresses but are never dereferenced). Replay: the "
-             "view/iterator/assignment/comparison program families and 28 owning-array probes run on T*, an offset-style fancy "
-             "pointer over an interleaved arena (no conversion to or from T*) and a bounds-checking provenance pointer; each output "
-             "must equal the model's observation file, the checked pointer's violation log must be empty, no to_address/"
-             "pointer_to call may occur.",
+             "lies inside [0,N) of the root (end iterators may hold out-of-range addresses but are never dereferenced); "
+             "C11_life_steps_touch_live_cells, C11_life_no_access_outside_live_blocks (+_fault), C11_life_cell_below_block_size (on "
+             "Model/Life.v, importing the C08/C09 lifecycle theorems): every cell touched by construct / destroy / read / assign in "
+             "any in-domain history of array.hpp entry points lies in a live block, below its size. Replay: the view / iterator / "
+             "assignment / comparison / standard-algorithm program families, fault-free lifecycle histories (C04/C06/C08 "
+             "generators, instrumented element and allocator) and 28 owning-array probes run on T*, an offset-style fancy pointer "
+             "over an interleaved arena (no conversion to or from T*) and a provenance pointer that checks bounds and block "
+             "liveness; each output must equal the model's observation stream, the checked pointer's violation log must be empty, "
+             "no to_address/pointer_to call may occur; a sample of view programs is re-evaluated by vm_compute inside coqc.",
         design_ref="5/C11", technique="Coq proof (step simulation over an abstract torsor, induction over programs and traces; bounds "
-                                      "from C01/C02; non-interference of the element loops) + differential replay of four program "
-                                      "families and fixed probes on three pointer types",
+                                      "from C01/C02; non-interference of the element loops) + differential replay of five program "
+                                      "families, lifecycle histories and fixed probes on three pointer types",
         note="partial in the sense of DESIGN 8: the model part is proved, conformance of the library's templates to the pointer "
              "concept is established by compiling and replaying on three pointer types, not for all types; pointer laws are "
              "premises (fancy_ptr/checked_ptr satisfy them by construction); one open known finding "
